@@ -939,7 +939,9 @@ func main() {
 		Import: "Onet.Corr.C16",
 		Rule: "seeded histories of 8-40 (thorough: 8-80) storage operations by 2-4 services with prefix-sharing names on one real server, " +
 			"few shared keys and bucket names, restarts on the same data directory; 'clash' histories use names violating the side condition " +
-			"(model comparison only); 'concurrent' cases run 2-4 savers per key and service with concurrent loaders; " +
+			"(model comparison only); 'concurrent' cases run 2-4 savers per key and service with concurrent loaders; 'big' histories fill buckets " +
+			"beyond bbolt's inline size with 150-330 byte values over many keys; service names of 4-19 bytes (incl. 11, 13, 19); services hold several " +
+			"additional-bucket names at once and request several concurrently; every value / bucket name handed out is re-compared after every later operation and restart; " +
 			"non-trivial = some load returned data; distinct = distinct Coq case term",
 		Shard:    15,
 		Generate: generate,
